@@ -5,5 +5,5 @@ LEVEL = "proof"
 
 
 def run(chk, rng, replay=None):
-    runlevel.run_check(chk, rng, replay, "C09", MODULES, "C09", 300, 4000, {"C09"},
+    runlevel.run_check(chk, rng, replay, "C09", MODULES, "C09", 300, 4000, {"C09"}, extra=lambda chk, verdicts: runlevel.request_met_by_result(chk, verdicts, "C09"),
                        doc="after an evaluation that meets the target feasibly / is feasible in a feasibility problem / whose callback raised StopIteration, only the matching exception, _build_result and the return follow")
